@@ -171,7 +171,8 @@ func (lc *lenCtx) lbWith(v ssa.Value, at ssa.Instruction, facts []core.TFact, ra
 			okTrue := false
 			for _, f := range raw {
 				if f.Kind == core.FBool && f.Bool {
-					if e, isE := core.Strip(f.X).(*ssa.Extract); isE && e.Tuple == ssa.Value(call) && e.Index == 0 {
+					// the verdict may come back through a private helper that returns DeCommit()'s pair
+					if e, isE := core.ResolveIn(core.Outermost(at.Parent()), f.X).(*ssa.Extract); isE && e.Tuple == ssa.Value(call) && e.Index == 0 {
 						okTrue = true
 					}
 				}
@@ -228,6 +229,14 @@ func (lc *lenCtx) lbWith(v ssa.Value, at ssa.Instruction, facts []core.TFact, ra
 		if t := core.TermOf(x.Len); t.Op == "call:len" && t.Args[0].V != nil {
 			up(lc.lowerBound(t.Args[0].V, at, depth+1))
 		}
+	}
+	// the list handed back by a private helper of this function: what the helper's returns agree on
+	if rv := core.ResolveIn(core.Outermost(at.Parent()), v); rv != v && depth < 6 {
+		if _, isParam := v.(*ssa.Parameter); !isParam {
+			up(lc.lbWith(rv, at, facts, raw, depth+1))
+		}
+	}
+	switch x := v.(type) {
 	case *ssa.Parameter:
 		// one level up: all callers must guarantee the bound
 		fn := x.Parent()
